@@ -574,7 +574,7 @@ func genCollectionFrames(t *rapid.T) Case {
 	// layout added at one or two levels on the way out: what was learnt inside must still
 	// be known that far outside
 	if rapid.IntRange(0, 3).Draw(t, "tower") == 0 {
-		d := rapid.SampledFrom([]int{10, 15, 16, 17, 31, 32, 33, 40, 64, 65, 130}).Draw(t, "towerdepth")
+		d := rapid.SampledFrom([]int{10, 15, 16, 17, 31, 32, 33, 40, 64, 65, 130, 257, 999, 1000, 1030, 2050}).Draw(t, "towerdepth")
 		if rapid.Bool().Draw(t, "plaintower") {
 			// a tower of plain frames around one simple member, and one sibling of the same
 			// or of another dimension at a drawn level on the way out
